@@ -610,6 +610,15 @@ func RepeatedNameStatements() []string {
 				fmt.Sprintf("SELECT ?s AS ?k, count(?o) AS ?n, count(?o) AS ?m FROM %s WHERE %s GROUP BY ?k ORDER BY ?k, ?m, ?k HAVING ?n = ?m;", from, pat),
 				fmt.Sprintf("SELECT ?s, ?s AS ?t, ?o, ?o AS ?u FROM %s WHERE %s ORDER BY ?t, ?s, ?u, ?t;", from, pat),
 				fmt.Sprintf("SELECT ?s, ?o FROM %s WHERE %s ORDER BY ?s, ?o, ?s, ?o;", from, pat),
+				// keys that name a binding by what it was called before AS renamed it
+				fmt.Sprintf("SELECT ?s AS ?who, count(?o) AS ?n FROM %s WHERE %s GROUP BY ?s ORDER BY ?s;", from, pat),
+				fmt.Sprintf("SELECT ?s AS ?who, count(?o) AS ?n FROM %s WHERE %s GROUP BY ?who ORDER BY ?s;", from, pat),
+				fmt.Sprintf("SELECT ?s AS ?who, count(?o) AS ?n FROM %s WHERE %s GROUP BY ?who ORDER BY ?o DESC;", from, pat),
+				fmt.Sprintf("SELECT ?s AS ?who, sum(?o) AS ?n FROM %s WHERE %s GROUP BY ?who ORDER BY ?n, ?s;", from, pat),
+				fmt.Sprintf("SELECT ?s AS ?who, count(distinct ?o) AS ?n FROM %s WHERE %s GROUP BY ?who HAVING ?s = ?s;", from, pat),
+				fmt.Sprintf("SELECT ?s AS ?who, ?o AS ?what FROM %s WHERE %s ORDER BY ?s, ?o DESC;", from, pat),
+				fmt.Sprintf("SELECT ?s AS ?who, ?o AS ?what FROM %s WHERE %s GROUP BY ?s, ?o ORDER BY ?who;", from, pat),
+				fmt.Sprintf("SELECT ?s AS ?who, ?o AS ?what FROM %s WHERE %s ORDER BY ?who HAVING ?o = ?s;", from, pat),
 			)
 		}
 	}
